@@ -137,7 +137,7 @@ def body_ordinal(rec, c):
 # ------------------------------------------------- engine classes: stochastic integrators draw from the job stream
 @st.composite
 def engine_cases(draw):
-    return {"engine": draw(st.sampled_from(["turtlemd", "turtlemd-userseed", "ase", "lammps"])), "seed": draw(st.integers(0, 2**31)), "gseed": draw(st.integers(0, 2**31)),
+    return {"engine": draw(st.sampled_from(["turtlemd", "turtlemd-userseed", "ase", "lammps", "ase-velocityverlet"])), "seed": draw(st.integers(0, 2**31)), "gseed": draw(st.integers(0, 2**31)),
             "n": draw(st.integers(2, 3)), "maxlen": draw(st.integers(4, 9)), "subcycles": draw(st.integers(1, 2)), "boundary": draw(st.sampled_from([True, True, True, False]))}
 
 
@@ -166,8 +166,9 @@ def body_engine(rec, c):
             src = os.path.join(root, "start.xyz")
             write_xyz_trajectory(src, np.array(pos), np.array(vel), ["Ar"] * n, np.array([50.0] * 3), append=False)
             read = lambda p: open(p).read()  # noqa: E731
-        elif name == "ase":
-            eng = ek.make_ase(root, temperature=300.0, integrator="langevin", subcycles=c["subcycles"], timestep=1.0)
+        elif name.startswith("ase"):
+            # (with the deterministic integrator the only random part of a shooting move is the velocity draw)
+            eng = ek.make_ase(root, temperature=300.0, integrator="langevin" if name == "ase" else "velocityverlet", subcycles=c["subcycles"], timestep=1.0)
             src = os.path.join(root, "start.traj")
             ek.ase_frame(src, ["H", "O", "C"][:n], [1.0, 16.0, 12.0][:n], pos, (np.array(vel) * 0.01).tolist())
 
@@ -199,7 +200,11 @@ def body_engine(rec, c):
                 eng.rgen = pickle.loads(pickle.dumps(eng.rgen.spawn(2)[1]))
             g0 = (np.random.get_state()[1][:6].tolist(), random.getstate()[1][:6])
             path = Path(maxlen=c["maxlen"])
-            eng.propagate(path, ens, ek.system_for(src, 0), reverse=False)
+            start = ek.system_for(src, 0)
+            if name == "ase-velocityverlet":
+                # the shooting move as a whole: new velocities for the shooting point, then the propagation from it
+                eng.modify_velocities(start, {"zero_momentum": False})
+            eng.propagate(path, ens, start, reverse=False)
             g1 = (np.random.get_state()[1][:6].tolist(), random.getstate()[1][:6])
             return read(path.phasepoints[0].config[0]), g0 == g1
 
